@@ -293,7 +293,9 @@ func fFan(c *CheckRun, kind int, nSym int, variants int, full bool) []histB {
 				out = append(out, histB{kind: kind, ops: base, probes: []int{aSpec(0, 1)}, label: label + " A", big: true, noSym: true})
 			}
 			var pats [][][2]int
-			if nSym == 1 {
+			// a full node4 (and one shrunk back to 4) always gets the two-operation patterns: delete-then-insert
+			// histories on stale lanes need both
+			if nSym == 1 && sh.m != c.Eng.constInt("maxNode4", 4) {
 				pats = [][][2]int{{{opInsert, aSpec(0, 1)}}, {{opDelete, aSpec(0, 1)}}}
 			} else {
 				pats = [][][2]int{
